@@ -46,3 +46,14 @@ Theorem C19_source_constants :
   /\ ENTITY_COLUMNS = [a_dataset; [101;110;116;105;116;121;95;105;100]%N; [99;114;101;97;116;101;95;105;102]%N; [117;112;100;97;116;101;95;105;102]%N; s_label].
 Proof. repeat split; reflexivity. Qed.
 Print Assumptions C19_source_constants.
+
+(* ---- which rows the save_to check takes for the opening of a group, repeat or loop (Model/SaveToRow.v, run against RE_BEGIN_CONTROL_ROW) ---- *)
+Require Import PX.Model.TypeCell PX.Model.SaveToRow PX.Proofs.TypeCell PX.Proofs.SaveToRow.
+(* EVERY cell that workbook_to_json reads as the opening of a section -- under any control alias, with or without a list -- is refused a save_to *)
+Theorem C19_section_rows_recognised : forall t k, parse_begin controls t = Some k -> begin_row controls t = true.
+Proof. exact (section_rows_recognised controls). Qed.
+Print Assumptions C19_section_rows_recognised.
+(* and NO select question, whatever its list is called, is taken for one (defect F55: `select_one groups`) *)
+Theorem C19_select_rows_are_not_sections : forall t k, parse_select selects t = Some k -> begin_row controls t = false.
+Proof. exact select_rows_are_not_sections. Qed.
+Print Assumptions C19_select_rows_are_not_sections.
